@@ -427,6 +427,17 @@ Definition is_container_state (w : world) (i : nat) : bool :=
   | None => false
   end.
 
+(* the items whose state is the state of the item being switched: its state-inheriting children, and their
+   children in turn (the setter's work list: a child's own children are appended when the child is handled) *)
+Fixpoint state_desc (n : nat) (w : world) (queue : list nat) : list nat :=
+  match n, queue with
+  | S n, ch :: rest =>
+    if is_container_state w ch
+    then ch :: state_desc n w (rest ++ match get_item w ch with Some cit => child_items cit false | None => [] end)
+    else state_desc n w rest
+  | _, _ => []
+  end.
+
 Definition state_set_op (s : st) (i : nat) (new : Z) : st * res :=
   match get_item (fst s) i with
   | None => (lift s (fun w => fail w EKeyAbsent), ROk)
@@ -444,7 +455,7 @@ Definition state_set_op (s : st) (i : nat) (new : Z) : st * res :=
                         let (w, ms) := acc in
                         if is_container_state w ch
                         then let (w, m2) := state_update_msgs w ch old new in (w, ms ++ m2)
-                        else (w, ms)) (child_items it false) (w, msgs)), ROk)
+                        else (w, ms)) (state_desc (S (length (w_items w))) w (child_items it false)) (w, msgs)), ROk)
       end
   end.
 
